@@ -70,7 +70,7 @@ Definition group_query (x : etables) (g : N) : option query := nth (N.to_nat g) 
 
 Definition mk_env (x : etables) : menv :=
   {| max_field_chars := x_max x;
-     urn_normalize := lookupN (x_norm x);
+     urn_norm1 := lookupN (x_norm x);
      urn_valid := fun u => memN u (x_valid x);
      urn_identity := lookupN (x_ident x);
      urn_scheme := lookupN (x_scheme x);
